@@ -357,6 +357,14 @@ func (x *ctx) zeroOf(s srtT) term {
 
 // model implements library and table functions; ok=false when there is no model for key.
 func (x *ctx) model(st *state, fr *frame, key string, callee *ssa.Function, args []val, rt types.Type) ([]outcome, bool) {
+	if key == "sync/atomic.LoadPointer" && len(args) == 1 && args[0].ptr != nil {
+		// (sequential model of the function forms, as for the method forms below)
+		return x.ret1(st, x.load(st, args[0], types.Typ[types.UnsafePointer])), true
+	}
+	if key == "sync/atomic.StorePointer" && len(args) == 2 && args[0].ptr != nil {
+		x.store(st, args[0], args[1], types.Typ[types.UnsafePointer])
+		return x.ret1(st, val{}), true
+	}
 	if strings.HasPrefix(key, "sync/atomic.") {
 		parts := strings.Split(strings.TrimPrefix(key, "sync/atomic."), ".")
 		if len(parts) != 2 {
